@@ -112,7 +112,12 @@ SigConforms(ev) ==
   /\ SigMustBeNone(ev.sig) => ev.out.mapper = <<>>
   /\ (s.indomain /\ ValidDescriptor(ev.sig)) => ev.out.mapper = Deobfuscate(s.blocks, ev.sig)
 
+\* concurrent runs repeat every call many times: `others` lists the results that differed from the
+\* first one (any such result is a violation of "answers as if queried alone")
+Stable(ev) == ("others" \in DOMAIN ev) => ev.others = <<>>
+
 Conforms(ev) ==
+  Stable(ev) /\
   CASE ev.t = "load" -> TRUE
     [] ev.t = "text" -> TextConforms(ev)
     [] ev.t = "typed" -> TypedConforms(ev)
